@@ -13,7 +13,7 @@
 From Verif Require Import Lib.Base Lib.Json Model.KeyId Model.UAgent Model.Shim Model.ShimSpec Model.ShimCheck
   Model.C07Check Model.C09Check Model.C10Check Generated.ShimGen Proofs.ShimProofs Proofs.ShimFilterProofs
   Proofs.ShimInvProofs Proofs.ShimExactProofs Proofs.ShimC07Proofs Proofs.ShimSpecProofs Proofs.ShimC09Proofs
-  Proofs.ShimC10Proofs Proofs.ShimC10Oracle.
+  Proofs.ShimC10Proofs Proofs.ShimLocality Proofs.ShimC10Oracle.
 
 (** ** What the source looks like *)
 
@@ -186,7 +186,7 @@ Theorem c10_forward : forall info script now s raw len rlen,
   if (max_frame <? len)%N then (exists e, r = RErr e) /\ s' = s
   else match r with
        | RRaw x => x = raw /\ rawlog (ua s') = rawlog (ua s) ++ [raw] /\ (max_frame <? rlen)%N = false
-       | RRawInjected _ => exists n, script n <> None
+       | RRawInjected _ => script (reqno (ua s)) <> None
        | RErr _ => True
        | _ => False
        end.
@@ -232,13 +232,35 @@ Print Assumptions c10_construct_inv.
 
 (** ** All histories, every fault script: the oracle evaluated on the
     implementation accepts every history of the model from every state
-    satisfying the invariant.  [ff = true] (the clauses about a healthy agent
-    are switched on) needs a fault-free script. *)
-Theorem c10_histories : forall info script ff,
-  (ff = true -> forall n, script n = None) -> wf_info info ->
-  forall s h, Inv info s -> oracle info ff (noup s) (obs_of s) (model_steps info script s h) = true.
+    satisfying the invariant.  [pend k] over-approximates "the script still
+    holds a fault for a request number >= k": the clauses about a healthy agent
+    are switched on for every operation that starts once no fault is pending
+    (locality of the script: [c10_script_locality]). *)
+Theorem c10_histories : forall info script pend,
+  (forall k, pend k = false -> forall n, (k <= n)%nat -> script n = None) -> wf_info info ->
+  forall s h, Inv info s -> oracle info pend (noup s) (obs_of s) (model_steps info script s h) = true.
 Proof. exact oracle_model. Qed.
 Print Assumptions c10_histories.
+
+(** the [pending] test of the check is such an over-approximation for the script the harness installed *)
+Theorem c10_pending_sound : forall scr k,
+  pending scr k = false -> forall n, (k <= n)%nat -> script_of scr n = None.
+Proof. exact pending_sound. Qed.
+Print Assumptions c10_pending_sound.
+
+(** An operation reads the fault script only at request numbers from the
+    current one on, and request numbers never decrease: two scripts that agree
+    from there on drive it identically. *)
+Theorem c10_script_locality : forall info sc1 sc2 now s o,
+  (forall n, (reqno (ua s) <= n)%nat -> sc1 n = sc2 n) ->
+  step info sc1 now s o = step info sc2 now s o.
+Proof. exact step_ext. Qed.
+Print Assumptions c10_script_locality.
+
+Theorem c10_request_numbers_grow : forall info sc now s o,
+  (reqno (ua s) <= reqno (ua (fst (step info sc now s o))))%nat.
+Proof. exact step_reqno. Qed.
+Print Assumptions c10_request_numbers_grow.
 
 (** ** Non-vacuity *)
 (** Keys 1 (RSA), 2; certificate 30 over key 1, 31 over key 2 (not held),
